@@ -368,6 +368,11 @@ fn c15(tc: &Toolchain, tier: &str, tag: &str, seed: u64, thorough: bool, root: &
             code = code.max(2);
             continue;
         }
+        if !b.ok && (b.stderr.contains("conflicting generic parameters") || crate::probe::generator_fault(&b.stderr)) {
+            eprintln!("gcverif: a rejection probe was rejected for an unrelated reason (cannot decide): {class}: {}", b.stderr.lines().take(4).collect::<Vec<_>>().join(" | "));
+            code = code.max(2);
+            continue;
+        }
         if b.ok {
             violations += 1;
             if first_violation.is_none() {
